@@ -4,6 +4,7 @@
 usage: try_seed.py <worktree> <name> <property> [checks to run ...]"""
 import json, os, shutil, subprocess, sys, time
 V = os.path.dirname(os.path.dirname(os.path.abspath(__file__)))
+REPO = os.environ.get("QCO_REPO", "/repo")  # a scratch clone when the real tree is busy with a background run
 
 def sh(cmd, cwd=None, timeout=3600):
     p = subprocess.run(cmd, cwd=cwd, shell=True, stdout=subprocess.PIPE, stderr=subprocess.STDOUT, text=True, timeout=timeout,
@@ -53,10 +54,10 @@ def main():
         shutil.copy(os.path.join(wt, "NOTES.md"), os.path.join(dst, "NOTES.md"))
         meta["needs_to_manifest"] = open(os.path.join(wt, "NOTES.md")).read()[:1500]
     # 3. run the checks against it
-    rc, out = sh("git -C /repo status --short | grep -v '^??' | head", cwd=V)
+    rc, out = sh("git -C %s status --short | grep -v '^??' | head" % REPO, cwd=V)
     if out.strip():
-        print("refusing: /repo has local modifications:", out); sys.exit(3)
-    rc, out = sh("git -C /repo apply %s" % os.path.join(dst, "patch.diff"))
+        print("refusing: repo has local modifications:", out); sys.exit(3)
+    rc, out = sh("git -C %s apply %s" % (REPO, os.path.join(dst, "patch.diff")))
     if rc != 0:
         print("patch does not apply to /repo:", out); sys.exit(3)
     try:
@@ -76,8 +77,8 @@ def main():
                                 "summary": summary[-1] if summary else out[-300:], "wall_s": round(time.time() - t, 1)})
             print("  check %s: exit=%d caught=%s %s" % (c, rc, rc != 0, detail[:160]))
     finally:
-        sh("git -C /repo checkout -- .")
-        rc, out = sh("git -C /repo status --short | grep -v '^??' | head")
+        sh("git -C %s checkout -- ." % REPO)
+        rc, out = sh("git -C %s status --short | grep -v '^??' | head" % REPO)
         print("  /repo restored:", "clean" if not out.strip() else out)
     json.dump(meta, open(os.path.join(dst, "meta.json"), "w"), indent=1)
     # restore evidence of the unchanged tree for the checks that were run
